@@ -158,6 +158,7 @@ def run_history(ctx, hist, check_state=None):
     logging.disable(logging.CRITICAL)
     import decimal
     decimal.setcontext(decimal.Context())   # fresh-interpreter environment
+    c16events.reset_kept()
     kept = []
     legacy = False
     ok = True
